@@ -110,9 +110,14 @@ func (r *RibEntry) pruneIfEmpty() {
 }
 
 func (r *RibEntry) updateNexthopsEnc() {
-	// Filler nodes that only connect longer prefixes have no name and no FIB entry
-	// of their own (a nil name would address the root FIB entry); only recurse.
-	if r.Name == nil {
+	// Entries without routes of their own have no FIB entry: name-less filler nodes
+	// that only connect longer prefixes (a nil name would address the root FIB
+	// entry) and entries whose last route was just removed (they may be pruned right
+	// after this call and would never be refreshed again). Clear and only recurse.
+	if r.Name == nil || len(r.routes) == 0 {
+		if r.Name != nil {
+			FibStrategyTable.ClearNextHopsEnc(r.Name)
+		}
 		for child := range r.children {
 			child.updateNexthopsEnc()
 		}
